@@ -24,6 +24,10 @@ pub const MINIWASM: bool = cfg!(feature = "miniwasm");
 pub const SIM_CHANNEL: &str = "channel-0";
 pub const T0: u64 = 1_700_000_000;
 pub const TX_INDEX: u32 = 3;
+/// Block headers carry nanoseconds; every simulated block is stamped one nanosecond before the next full
+/// second, so that "one second before the deadline" is as late as a block can be while still being early
+/// (the contract stores its deadlines in whole seconds).
+pub const SUBSEC_NANOS: u64 = 999_999_999;
 
 pub fn staked_denom() -> String {
     format!("ibc/{}", "C3E53D20BC7A4CC993B17C7971F8ECD06A433C10B6A96F4C4C3714F0624C56DA")
@@ -248,7 +252,7 @@ pub fn monitors_of(k: &K) -> Vec<String> {
 impl World {
     pub fn env(&self) -> Env {
         Env {
-            block: BlockInfo { height: 12_345, time: Timestamp::from_seconds(self.time), chain_id: "sim-1".into() },
+            block: BlockInfo { height: 12_345, time: Timestamp::from_nanos(self.time * 1_000_000_000 + SUBSEC_NANOS), chain_id: "sim-1".into() },
             transaction: Some(TransactionInfo { index: TX_INDEX }),
             contract: ContractInfo { address: Addr::unchecked(contract_addr()) },
         }
